@@ -149,32 +149,97 @@ def env_atoms(desc, host_atoms):
             info.append({"kind": "wat", "input": "HOH", "position": None,
                          "chain": "W", "res_seq": wnum})
             wnum += 1
-        elif kind == "partner":
-            _k, P, patom, tname, di, d, ri = dev
+        elif kind in ("partner", "ideal"):
+            if kind == "ideal":
+                # partner atom on a tetrahedral slot of the host's polar atom:
+                # distance d, 109.5 degrees to the parent bond, torsion
+                # phi + 120 * slot about it; the first contact-free cube
+                # rotation of the partner is used
+                _k, P, patom, tname, phi, slot, d = dev
+                ri_list = range(24)
+            else:
+                _k, P, patom, tname, di, d, ri = dev
+                ri_list = [ri]
             t = _find(host_atoms, ti, tname)
             if t is None:
                 return None
-            part = build.build_peptide(["ALA", P, "ALA"], chain="B", start=51)
-            p = _find(part, 1, patom)
-            R = build.CUBE_ROTATIONS[ri]
-            target = t["xyz"] + d * build.DIRECTIONS14[di]
-            p0 = p["xyz"].copy()
-            for a in part:
-                a["xyz"] = R @ (a["xyz"] - p0) + target
-            # reject poses with any other heavy contact below 2.5 A
-            for a in host_atoms:
-                if a["name"].startswith("H"):
-                    continue
-                for b in part:
-                    if a is t and b is p:
+            if kind == "ideal":
+                tmpl = T.expected_topology(desc["x"], desc["pos"])
+                par = next(b for b in tmpl.atoms[tname].bonds
+                           if not b.startswith("H"))
+                gpar = next(b for b in tmpl.atoms[par].bonds
+                            if not b.startswith("H") and b != tname)
+                target = build.nerf(_find(host_atoms, ti, gpar)["xyz"],
+                                    _find(host_atoms, ti, par)["xyz"],
+                                    t["xyz"], d, 109.5, phi + 120.0 * slot)
+            else:
+                target = t["xyz"] + d * build.DIRECTIONS14[di]
+            k = sum(1 for i_ in info if i_.get("partner_centre"))
+            pchain, pstart = "BCDE"[k], 51 + 10 * k
+            placed = None
+            rotations = [build.CUBE_ROTATIONS[ri] for ri in ri_list]
+            if kind == "ideal":
+                # a donor points one of its hydrogens at the host atom (the
+                # hydrogens are rebuilt by the program at their template
+                # positions); the spin about that line is the first
+                # contact-free one on a 30-degree lattice
+                full = build.build_peptide(["ALA", P, "ALA"], hydrogens=True)
+                ptm = T.expected_topology(P, "mid")
+                hname = next((b for b in ptm.atoms[patom].bonds
+                              if b.startswith("H")), None)
+                if hname is not None:
+                    u = (_find(full, 1, hname)["xyz"]
+                         - _find(full, 1, patom)["xyz"])
+                    v = t["xyz"] - target
+                    A = _align(u, v)
+                    rotations = [_spin(v, psi) @ A
+                                 for psi in range(0, 360, 30)]
+            for R in rotations:
+                # ideal partners carry their hydrogens in the file, so that
+                # the donor hydrogen is where the pose puts it
+                part = build.build_peptide(["ALA", P, "ALA"], chain=pchain,
+                                           start=pstart,
+                                           hydrogens=(kind == "ideal"))
+                p = _find(part, 1, patom)
+                p0 = p["xyz"].copy()
+                for a in part:
+                    a["xyz"] = R @ (a["xyz"] - p0) + target
+                bad = False
+                # reject poses with any other heavy contact below 2.5 A
+                for a in host_atoms:
+                    if a["name"].startswith("H"):
                         continue
-                    if build.dist(a["xyz"], b["xyz"]) < 2.5:
-                        return None
-            extra += part
+                    for b in part:
+                        if (a is t and b is p) or b["name"].startswith("H"):
+                            continue
+                        if build.dist(a["xyz"], b["xyz"]) < 2.5:
+                            bad = True
+                            break
+                    if bad:
+                        break
+                if not bad:
+                    for a in extra:  # earlier partners / probes
+                        if a["name"].startswith("H"):
+                            continue
+                        for b in part:
+                            if b["name"].startswith("H"):
+                                continue
+                            if build.dist(a["xyz"], b["xyz"]) < 2.5:
+                                bad = True
+                                break
+                        if bad:
+                            break
+                if not bad:
+                    placed = part
+                    break
+            if placed is None:
+                return None
+            extra += placed
             for i, name in enumerate(["ALA", P, "ALA"]):
                 info.append({"kind": "aa", "input": name,
-                             "position": ("n", "mid", "c")[i], "chain": "B",
-                             "res_seq": 51 + i, "target": False})
+                             "position": ("n", "mid", "c")[i], "chain": pchain,
+                             "res_seq": pstart + i, "target": False,
+                             "partner_centre": i == 1})
         elif kind == "omit":
             pass  # handled in host()
         elif kind == "extra":
@@ -234,6 +299,30 @@ def build_case(desc):
 # ---------------------------------------------------------------------------
 # enumerators (each block is complete)
 # ---------------------------------------------------------------------------
+def _align(u, v):
+    """Rotation matrix taking direction u to direction v."""
+    u = np.asarray(u, float) / np.linalg.norm(u)
+    v = np.asarray(v, float) / np.linalg.norm(v)
+    c = float(u @ v)
+    if c > 1 - 1e-12:
+        return np.eye(3)
+    if c < -1 + 1e-12:
+        w = np.cross(u, [1.0, 0.0, 0.0])
+        if np.linalg.norm(w) < 1e-6:
+            w = np.cross(u, [0.0, 1.0, 0.0])
+        return _spin(w, 180.0)
+    w = np.cross(u, v)
+    K = np.array([[0, -w[2], w[1]], [w[2], 0, -w[0]], [-w[1], w[0], 0]])
+    return np.eye(3) + K + K @ K / (1.0 + c)
+
+
+def _spin(axis, deg):
+    a = np.asarray(axis, float) / np.linalg.norm(axis)
+    th = np.radians(deg)
+    K = np.array([[0, -a[2], a[1]], [a[2], 0, -a[0]], [-a[1], a[0], 0]])
+    return np.eye(3) + np.sin(th) * K + (1 - np.cos(th)) * (K @ K)
+
+
 def hydrogens_of(x, pos):
     tmpl = T.expected_topology(x, pos)
     return [a for a in tmpl.atoms if a.startswith("H")]
@@ -342,6 +431,29 @@ def partner_cases(ff, partners, hosts=None, positions=("mid",), dists=(2.8,),
                                         "opt": "default",
                                         "env": [["partner", P, patom, t, di,
                                                  d, ri]]})
+    return out
+
+
+def tetra_partner_cases(ff, hosts=("SER", "THR", "TYR"),
+                        pairs=(("LYS", "LYS"), ("LYS", "ASP"),
+                               ("ASP", "ASP")),
+                        phis=range(0, 360, 30), positions=("mid",)):
+    """Two partner side chains on two tetrahedral slots of one hydroxyl
+    oxygen, for every torsion phi of the slot frame on a 30-degree lattice:
+    two donors (the hydroxyl accepts two hydrogen bonds - both lone-pair
+    placeholders in use), donor + acceptor, two acceptors."""
+    out = []
+    for x in hosts:
+        t = POLAR[T.base_of(x)][0]
+        for pos in positions:
+            for P1, P2 in pairs:
+                for phi in phis:
+                    out.append({
+                        "x": x, "pos": pos, "ff": ff, "opt": "default",
+                        "env": [["ideal", P1, PARTNER_ATOMS[P1][-1], t, phi,
+                                 0, 2.8],
+                                ["ideal", P2, PARTNER_ATOMS[P2][-1], t, phi,
+                                 1, 2.8]]})
     return out
 
 
